@@ -41,6 +41,11 @@ def list_cases(sh):
         for kind, q in sp_['qs'][sh['lo']:sh['hi']]:
             if kind == 'wide':
                 continue
+            if kind == 'join_empty_partner':
+                for B in ([[]], [[], ['q', 'p']]):
+                    for A in ([['x', 'y']], [['x', 'y'], ['u', 'w']]):
+                        yield q, A, B, None
+                continue
             for B in (sp_['Bs'] if kind == 'join' else [None]):
                 for A in tabs[kind][::sh['stride']]:
                     yield q, A, B, (sp_['names'] if kind == 'named' else None)
